@@ -101,7 +101,7 @@ def calls(node, name=None):
 
 def own_nodes(fn):
     """nodes of a function body excluding nested function/class bodies (lambdas included)"""
-    stack = list(fn.body)
+    stack = [s for s in fn.body if not isinstance(s, (ast.FunctionDef, ast.AsyncFunctionDef, ast.ClassDef))]
     while stack:
         n = stack.pop()
         yield n
